@@ -6,7 +6,7 @@
    node is a triple of shares adding up to it. *)
 From Coq Require Import Ring.
 From CC Require Import Base.Prelude Base.Scalar Base.Ty Base.Shape Graph.Value Graph.IR Graph.Eval Graph.Typing
-  Model.RingEval Model.MpcCompile Model.MpcCompileSem Proofs.MpcCompileBase Proofs.MpcCompileStatic
+  Model.RingEval Model.MpcCompile Model.MpcCompilePlan Model.MpcCompileSem Proofs.MpcCompileBase Proofs.MpcCompileStatic
   Proofs.MpcCompileTyping Proofs.MpcCompileReshare.
 
 (* ---------- sets ---------- *)
@@ -840,8 +840,8 @@ Section Correct.
   Qed.
 
   (* ---------- compile_graph ---------- *)
-  Theorem compile_graph_correct nodes output flags out oo omap priv um :
-    compile_graph_map nodes output flags = Ok (out, oo, omap) ->
+  Theorem compile_graph_plan_correct resh nodes output flags out oo omap priv um :
+    compile_graph_plan resh nodes output flags = Ok (out, oo, omap) ->
     propagate_private_annotations nodes flags = Ok (priv, um) ->
     thm_frag nodes = true ->
     forall ins_s ins_c env_s kv0 kv1 kv2,
@@ -853,8 +853,8 @@ Section Correct.
         exists k vc, znth omap j = Ok k /\ znth env_c k = Ok vc /\ rel (mem j priv) vs vc.
   Proof.
     intros H Hppa Hf ins_s ins_c env_s kv0 kv1 kv2 Hs Hin.
-    unfold compile_graph_map in H. rewrite Hppa in H. cbn [bind] in H.
-    apply bind_ok in H as ([out0 keys] & H0 & H). apply bind_ok in H as (resh & _ & H).
+    unfold compile_graph_plan in H. rewrite Hppa in H. cbn [bind] in H.
+    apply bind_ok in H as ([out0 keys] & H0 & H).
     apply bind_ok in H as ([out1 omap1] & HL & H). apply bind_ok in H as (oo' & _ & H). inversion H; subst; clear H.
     unfold deval in Hs. destruct (dfrom nodes (Some ([], ins_s))) as [[es is']|] eqn:Hds; [|discriminate].
     inversion Hs; subst es; clear Hs.
@@ -876,5 +876,29 @@ Section Correct.
     exists env_c. split.
     - unfold deval. unfold MpcCompileBase.evals in Ev. rewrite Ev. reflexivity.
     - intros j vs Hj. destruct (HI _ _ Hj) as (k & vc & A & B & C & _). eauto.
+  Qed.
+
+  Lemma compile_graph_map_plan nodes output flags r :
+    compile_graph_map nodes output flags = Ok r -> exists resh, compile_graph_plan resh nodes output flags = Ok r.
+  Proof.
+    unfold compile_graph_map, compile_graph_plan. intros H.
+    apply bind_ok in H as ([priv um] & Hp & H). rewrite Hp. cbn [bind].
+    apply bind_ok in H as ([out0 keys] & H0 & H). rewrite H0. cbn [bind].
+    apply bind_ok in H as (resh & _ & H). exists resh. exact H.
+  Qed.
+
+  Theorem compile_graph_correct nodes output flags out oo omap priv um :
+    compile_graph_map nodes output flags = Ok (out, oo, omap) ->
+    propagate_private_annotations nodes flags = Ok (priv, um) ->
+    thm_frag nodes = true ->
+    forall ins_s ins_c env_s kv0 kv1 kv2,
+    deval R r0 radd rmul rsub atom catom one lin bil nlin nodes ins_s = Some env_s ->
+    inrel flags ins_s ins_c ->
+    exists env_c,
+      deval R r0 radd rmul rsub atom catom one lin bil nlin out (keys_input um kv0 kv1 kv2 ++ ins_c) = Some env_c /\
+      forall j vs, znth env_s j = Ok vs ->
+        exists k vc, znth omap j = Ok k /\ znth env_c k = Ok vc /\ rel (mem j priv) vs vc.
+  Proof.
+    intros H. destruct (compile_graph_map_plan _ _ _ _ H) as (resh & Hr). exact (compile_graph_plan_correct _ _ _ _ _ _ _ _ _ Hr).
   Qed.
 End Correct.
